@@ -366,8 +366,15 @@ func (t *tr2) exprStmt(x *ast.ExprStmt, c *fctx, rest func() string) string {
 		return wrapBinds(bs, rest())
 	}
 	// a call the models do not observe (logging): operands evaluated, call dropped
-	if sel, ok := call.Fun.(*ast.SelectorExpr); ok {
-		if f, ok := t.info.Uses[sel.Sel].(*types.Func); ok && f.Pkg() != nil && ignoredCalls2[f.Pkg().Path()+"."+f.Name()] {
+	var calleeId *ast.Ident
+	switch f := call.Fun.(type) {
+	case *ast.SelectorExpr:
+		calleeId = f.Sel
+	case *ast.Ident:
+		calleeId = f
+	}
+	if calleeId != nil {
+		if f, ok := t.info.Uses[calleeId].(*types.Func); ok && f.Pkg() != nil && ignoredCalls2[f.Pkg().Path()+"."+f.Name()] {
 			for _, a := range call.Args {
 				if _, isStr := t.constString(a); isStr {
 					continue
